@@ -49,11 +49,15 @@ def validateOk (s : CState) (t : ATx) : Bool :=
 inductive Ev where
   | tx (t : ATx)
   | newEpoch
+  /-- an epoch change that also clears dust accounts (`applyNewEpoch`: `clearDustAccounts` directly before `IncEpoch`,
+  blockchain.go:733-735): the cleared accounts lose their nonce record -/
+  | clearEpoch (dust : List Nat)
   deriving Repr
 
 def step (s : CState) : Ev → Option CState
   | .tx t => applyTx s t
   | .newEpoch => some { s with epoch := s.epoch + 1 }
+  | .clearEpoch d => some { epoch := s.epoch + 1, accts := fun a => if a ∈ d then ⟨0, 0⟩ else s.accts a }
 
 def run : CState → List Ev → Option CState
   | s, [] => some s
@@ -66,9 +70,14 @@ def txsOf : List Ev → List ATx
   | [] => []
   | .tx t :: es => t :: txsOf es
   | .newEpoch :: es => txsOf es
+  | .clearEpoch _ :: es => txsOf es
 
 /-- nonces used by sender `a` for epoch `e`, in chain order -/
 def noncesOf (a e : Nat) (l : List ATx) : List Nat :=
   (l.filter (fun t => t.sender = a ∧ t.epoch = e)).map (·.nonce)
+
+/-- clearing accounts WITHOUT an epoch change (what a dust clearing at any other moment would be) -/
+def clearNow (s : CState) (d : List Nat) : CState :=
+  { s with accts := fun a => if a ∈ d then ⟨0, 0⟩ else s.accts a }
 
 end IdenaModel.Chain
